@@ -12,7 +12,7 @@ EXPLANATION = (
     "inverse of the decoding with matching payload types (R-CODEC-4); per-enumerant/per-bit parameter lists against the snapshot "
     "(R-CODEC-5); instruction framing (R-FRAME); string and 64-bit word layouts (R-WORDS). Decides the codec pairing, not the value "
     "equality parse(assemble(x)) == x itself.")
-EXHAUSTIVE = True
+EXHAUSTIVE = False     # the kind / variant / method tables are enumerated in full; frames and strings are evaluated on a stated finite scope
 
 CON = "rspirv::dr::constructs"
 SPECIAL = {"IdResultType", "IdResult", "LiteralContextDependentNumber", "LiteralSpecConstantOpInteger", "PairLiteralIntegerIdRef"}
